@@ -83,6 +83,15 @@ Theorem C01_mutation_rejected :
 Proof. exact mutation_rejected. Qed.
 Print Assumptions C01_mutation_rejected.
 
+(* the closure is closed under sequences of mutations: a document assembled from an assembled document is assembled
+   from the original (and the original is assembled from itself) *)
+Theorem C01_mutations_compose :
+  forall protected d0 d t,
+    assembled protected d0 d0 /\
+    (assembled protected d0 d -> assembled protected d t -> assembled protected d0 t).
+Proof. intros protected d0 d t. split; [apply assembled_refl|intros H1 H2; eapply assembled_trans; eauto]. Qed.
+Print Assumptions C01_mutations_compose.
+
 (* the same for an attacker holding any number of documents, stated with the unforgeability invariant:
    in a document where every signature value valid under a protected key stands over a SignedInfo its owner
    produced, acceptance implies the relied content was signed by that owner under that ID *)
